@@ -292,11 +292,18 @@ def range_tasks(tier):
         ("apply", ["and"], ["and", ["forall", ["?z", "-", "t1"], ["when", ["p", "?z"], ["not", ["p", "?z"]]]]]),
         ("apply", ["and"], ["and", ["forall", ["?z", "-", "t3"], ["when", ["not", ["p", "?z"]], ["and", ["p", "?z"], ["increase", ["f", "?z"], "1"]]]]]),
         ("apply", ["and", ["p", "?x"]], ["and", ["forall", ["?z", "-", "t1"], ["when", ["q", "?z", "?x"], ["not", ["q", "?z", "?x"]]]]]),
+        # the root type itself, a leaf of the chain and the sibling type as quantified types (ob is declared over object)
+        ("applicable", ["and", ["forall", ["?z", "-", "object"], ["or", ["ob", "?z"], ["r"]]]], ["and"]),
+        ("apply", ["and"], ["and", ["forall", ["?z", "-", "object"], ["when", ["r"], ["ob", "?z"]]]]),
+        ("apply", ["and"], ["and", ["forall", ["?z", "-", "object"], ["when", ["ob", "?z"], ["not", ["ob", "?z"]]]], ["r"]]),
+        ("apply", ["and"], ["and", ["forall", ["?z", "-", "t4"], ["when", ["not", ["p", "?z"]], ["p", "?z"]]]]),
+        ("applicable", ["and", ["forall", ["?z", "-", "t2"], ["and", ["s", "?z"]]]], ["and"]),
     ]
     tasks = []
     for mode, pre, eff in progs:
         for const in (False, True):
-            text = G.domain_text([("act", P1, pre, eff)], const=const, types=CHAIN_TYPES)
+            text = G.domain_text([("act", P1, pre, eff)], const=const, types=CHAIN_TYPES,
+                                 extra_predicates=[["ob", "?o", "-", "object"]])
             for args in (["o1"], ["o4"]):
                 tasks.append(dict(domain_text=text, action="act", args=args, objects=dict(CHAIN_OBJECTS), mode=mode,
                                   label=f"[chain declared children-first] pre {sexpr.render(pre)} eff {sexpr.render(eff)}",
